@@ -42,7 +42,7 @@ type wspec struct {
 	Alg     string // key-wrap algorithm label
 	Wrap    string // xor: wfk = fk^mask | kw: wfk = kit A256KW(kek, fk)
 	Mode    string // rt: kit Encrypt -> kit Decrypt | ref: document of the reference encoder under the worker's own file key -> kit Decrypt
-	Tamper  string // none | mac | unwrap-err | unwrap-wrong | segment
+	Tamper  string // none | mac | unwrap-err | unwrap-wrong | segment | scheme | header-cut | manifest | empty
 	Cons    int    // read size of the consumers (0: io.ReadAll)
 	Src     int    // read size of the sources (0: bytes.Reader, everything at once)
 
@@ -174,7 +174,7 @@ func genEnc(rt *rapid.T, w *wspec) {
 	w.Alg = rapid.SampledFrom(encAlgs).Draw(rt, "alg")
 	w.Wrap = rapid.SampledFrom([]string{"xor", "xor", "kw"}).Draw(rt, "wrap")
 	w.Mode = rapid.SampledFrom([]string{"rt", "rt", "rt", "ref"}).Draw(rt, "mode")
-	w.Tamper = rapid.SampledFrom([]string{"none", "none", "none", "none", "none", "mac", "unwrap-err", "unwrap-wrong", "segment"}).Draw(rt, "tamper")
+	w.Tamper = rapid.SampledFrom([]string{"none", "none", "none", "none", "none", "mac", "unwrap-err", "unwrap-wrong", "segment", "scheme", "header-cut", "manifest", "empty"}).Draw(rt, "tamper")
 	w.Cons = rapid.SampledFrom([]int{0, 0, 512, 4096, 16384, 65552, 70000}).Draw(rt, "cons")
 	w.Src = rapid.SampledFrom([]int{0, 0, 100, 512, 4096, 65536}).Draw(rt, "src")
 }
